@@ -57,6 +57,22 @@ fn main() {
         }
         check_assoc_triple::<B>(f, &p, &g2, loc);
     }).heavy());
+    // the laws in the lax representation: composites carry the pending unifications recorded by compose into
+    // further operations (no quotient in between); all triples of the universe
+    let lspec = if quick { Spec::lax(2, 1, 1, 1, 1, 1, 1, 0) } else { Spec::lax(2, 1, 1, 1, 1, 1, 1, 1) };
+    let lu: Vec<_> = lspec.universe().all().into_iter().filter(|l| l.label_consistent()).collect();
+    let nl = lu.len() as u64;
+    ctx.run_slice(Slice::new(format!("lax-laws[{}^3]", lspec.name()), nl * nl * nl, |i, loc| {
+        check_lax_laws(&lu[(i / (nl * nl)) as usize], &lu[((i / nl) % nl) as usize], &lu[(i % nl) as usize], loc)
+    }));
+    let lspec2 = Spec::lax(2, 1, 1, 2, 1, 1, 1, 0);
+    let lu2: Vec<_> = lspec2.universe().all().into_iter().filter(|l| l.open.edges.is_empty() || l.open.s.len() + l.open.t.len() == 2).collect();
+    let nl2 = lu2.len() as u64;
+    if !quick {
+        ctx.run_slice(Slice::new(format!("lax-laws-two-labels[{} diagrams of {} ^3]", nl2, lspec2.name()), nl2 * nl2 * nl2, |i, loc| {
+            check_lax_laws(&lu2[(i / (nl2 * nl2)) as usize], &lu2[((i / nl2) % nl2) as usize], &lu2[(i % nl2) as usize], loc)
+        }));
+    }
     // interchange again, on spiders with boundaries up to 2 (merging / splitting legs on both sides)
     let specs2 = Spec { n_min: 0, n_max: 2, e_min: 0, e_max: 0, ks: 0, kt: 0, lw: 1, lx: 1, a: 2, b: 2, q: 0 };
     let mut us2 = specs2.universe().all_open();
